@@ -251,6 +251,27 @@ PROPS = {
         "level_text": "Generated stop instants against generated backlogs with exact timestamps; counterexample search, not proof.",
         "level_note": "Trusts testing/synctest and the in-memory Conn's scripted latencies.",
     },
+    "C09": {
+        "pkg": "internal/corerad",
+        "files": ["corerad/zz_verif_C12_test.go", "corerad/zz_verif_sim_test.go", "corerad/zz_verif_adv_test.go", "corerad/zz_verif_mon_test.go", "corerad/zz_verif_C06_test.go", "corerad/zz_verif_C07_test.go", "corerad/zz_verif_C09_test.go"],
+        "run": "TestVerif_C09",
+        "level": "exploration",
+        "bubble": True,
+        "quick": {"shards": 8},
+        "thorough": {"shards": 16},
+        "rule": ("message sequences for a running Advertiser (2/3) or Monitor (1/3) in a synctest bubble: segments of 0..40 consecutive invalid messages "
+                 "(hop limit other than 255 on RS/RA/NS/NA; NS/NA on an advertiser) followed by 0..3 valid ones (RS with/without SLLA from 4 sources incl. "
+                 "::, consistent and inconsistent RAs), gaps 0 ns..3 s, ending with two valid solicitations from fresh sources; exhaustive single "
+                 "messages for every hop limit 0..255 x {RS, RA, NS, NA} on the advertiser (every 16th on the monitor). Oracle: differential against the "
+                 "same sequence with the invalid messages deleted (same transmissions per destination and content, same inconsistency reports and hook "
+                 "calls, same monitor callbacks and gauges), the C07 matching rules for the valid solicitations, messages_received_invalid_total by "
+                 "type = number of invalid messages, Run still running and no re-dial. Non-trivial: an invalid message followed by a valid one; runs "
+                 ">= 5 (the receive retry budget) are a tracked class. Distinct: FNV-64 of the canonical JSON case."),
+        "assumptions": [STAGED, BUBBLE, FAKES],
+        "technique": "rapid property-based testing + exhaustive single-message table; differential (metamorphic: delete invalid messages) on virtual time",
+        "level_text": "Differential runs of generated sequences against their filtered versions; counterexample search, not proof.",
+        "level_note": "Trusts testing/synctest and the in-memory Conn; message bodies are built as values (the decoder path is covered by C18's byte-level part).",
+    },
 }
 
 NOT_APPLICABLE = {}
